@@ -35,7 +35,7 @@ func init() {
 			"'served' is observed as the proxy dialer being invoked (client placement) or the destination being dialled (server placement)",
 		},
 		Units:          units,
-		QuickBudget:    60,
+		QuickBudget:    240,
 		ThoroughBudget: 300,
 	})
 }
